@@ -94,9 +94,54 @@ ASYNCPANIC_PROGS = [
 ]
 
 
+# C12: the `let` name is the USER's identifier (its hygiene context): it must stay visible to the user's capture blocks also when the macro
+# invocation is produced by a macro_rules! wrapper that forwards the name and the capture from its caller
+NAMES_PROGS = [
+    ('name-through-macro-rules-try', 'Option<(i64, i64)>',
+     '{ macro_rules! w { ($n:ident, $cap:expr) => { try_join! { let $n = Some(7_i64) |> |x| x + 1, Some(100_i64) ~|> $cap } } } let first = 1000_i64; let _ = first; w!(first, { let seen = first.unwrap_or(-1); move |v| v + seen }) }',
+     'Some((8, 108))'),
+    ('name-through-macro-rules-join', '(Option<i64>, Option<i64>)',
+     '{ macro_rules! w { ($n:ident, $cap:expr) => { join! { let $n = Some(7_i64) |> |x| x + 1, Some(100_i64) ~|> $cap } } } w!(first, { let seen = first.unwrap_or(-1); move |v| v + seen }) }',
+     '(Some(8), Some(108))'),
+    ('single-branch-reads-own-name', 'Option<i64>',
+     '{ let v = Some(1000_i64); let _ = v; try_join! { let v = Some(2_i64) |> |x| x * 2 ~|> { let seen = v.unwrap_or(-1); move |x| x + seen } ~|> { let seen = v.unwrap_or(-1); move |x| x * seen } } }',
+     'Some(64)'),
+    ('finished-branch-name-still-visible', 'Option<(i64, i64, i64)>',
+     '{ let small = Some(500_i64); let _ = small; try_join! { Some(1_i64) ~|> |x| x ~|> |x| x, let small = Some(3_i64), Some(10_i64) ~|> |x| x + 1 ~|> { let s = small.unwrap_or(-1); move |x| x + s } } }',
+     'Some((1, 3, 14))'),
+]
+
+
+# C07: plain macro, its spawn counterpart and the alias on the same branches - hand-written cases that need a pending sibling or a deep stack
+def _pair(mac_list, body, ty, value_of):
+    return ' '.join(['{ let mut out = Vec::new();'] + ['out.push({ %s });' % value_of(m, body) for m in mac_list] + ['out }'])
+
+
+def _tmo(mac, body):
+    return ('let rt = tokio::runtime::Builder::new_current_thread().enable_all().build().unwrap(); '
+            'match rt.block_on(async { tokio::time::timeout(std::time::Duration::from_millis(400), %s! { %s }).await }) { Ok(Err(e)) => e, Ok(Ok(_)) => -1_i64, Err(_) => -2_i64 }' % (mac, body))
+
+
+PAIRS_PROGS = [
+    ('try-async-family-agrees-with-pending-sibling', 'Vec<i64>',
+     _pair(['try_join_async', 'try_join_async_spawn', 'try_async_spawn'],
+           'futures::future::pending::<Result<i64, i64>>(), futures::future::ready(Err::<i64, i64>(7)) |> |r| r', 'i64', _tmo),
+     'vec![7, 7, 7]'),
+    ('try-async-family-agrees-second-step', 'Vec<i64>',
+     _pair(['try_join_async', 'try_join_async_spawn', 'try_async_spawn'],
+           'futures::future::ready(Ok::<i64, i64>(1)) ~..then(|_: Result<i64, i64>| futures::future::pending::<Result<i64, i64>>()), futures::future::ready(Ok::<i64, i64>(2)) ~=> |_: i64| futures::future::ready(Err::<i64, i64>(9))', 'i64', _tmo),
+     'vec![9, 9, 9]'),
+    ('sync-family-agrees-on-a-deep-stack-branch', 'Vec<i64>',
+     _pair(['join', 'join_spawn', 'spawn'],
+           'Some(1_i64) |> |x| { let a = [1u8; 600_000]; let mut s = 0_i64; for i in (0..a.len()).step_by(4096) { s += a[i] as i64; } x + s }, Some(2_i64) |> |x| x + 1', 'i64',
+           lambda m, b: 'let r = %s! { %s }; r.0.unwrap() * 10 + r.1.unwrap()' % (m, b)),
+     'vec![1483, 1483, 1483]'),
+]
+
+
 def run(tier, which='nest'):
     global PROGS
-    PROGS = (list(BASE_PROGS) + [eighteen()]) if which == 'nest' else (list(OPTS_PROGS) if which == 'opts' else list(ASYNCPANIC_PROGS))
+    PROGS = {'nest': list(BASE_PROGS) + [eighteen()], 'opts': list(OPTS_PROGS), 'asyncpanic': list(ASYNCPANIC_PROGS), 'names': list(NAMES_PROGS), 'pairs': list(PAIRS_PROGS)}[which]
     os.makedirs(os.path.join(RT, 'src', 'bin'), exist_ok=True)
     shutil.copyfile(os.path.join(jv.REPO, 'Cargo.lock'), os.path.join(RT, 'Cargo.lock'))
     live = list(PROGS)
